@@ -15,6 +15,8 @@ pub const DOCS: &[&str] = &[
     "<!DOCTYPE r [<!ENTITY e \"ee\"><!ENTITY u SYSTEM \"s\" NDATA n><!NOTATION n SYSTEM \"n\"><!ATTLIST a d CDATA \"dv\" r CDATA #REQUIRED>]><r>t1<a n=\"1\">&e;<![CDATA[cd]]>&#65;</a><b><c><d>deep</d></c></b></r>",
     "<r xmlns=\"urn:x\" xmlns:q=\"urn:y\"><q:a q:n=\"1\"><b xmlns=\"\">1</b><b>2</b></q:a><a>10</a><a> 3 </a></r>",
     "<!DOCTYPE r [<!ENTITY e0 \"x\"><!ENTITY e1 \"&e0;&e0;\"><!ENTITY e2 \"&e1;&e1;\"><!ENTITY e3 \"&e2;&e2;\">]><r a=\"&e3;\">&e3;<x>&e2;</x></r>",
+    // siblings that are equal in content but distinct nodes (identity vs equality), at two levels
+    "<r><a/><b/><a/>t<d>x</d>t<d>x</d><b><a/><b/><a/></b><b><a/><b/><a/></b></r>",
 ];
 
 const SOUP: &[&str] = &[
@@ -75,6 +77,8 @@ pub fn run(doc: &xml_dom::XmlDocument, expr: &str) -> Out {
     let mut ctx = xml_xpath::eval::model::Context::default();
     ctx.add_ns(Some("x"), "urn:x");
     ctx.add_ns(Some("y"), "urn:y");
+    ctx.add_ns(Some("z"), "urn:z");
+    ctx.add_ns(Some("xml"), "http://www.w3.org/XML/1998/namespace");
     match xml_xpath::query(doc.clone(), expr, &mut ctx) {
         Ok(v) => {
             // using the value must be total as well (string-value of the nodes, as xq would print)
@@ -91,7 +95,7 @@ impl Property for C06 {
         "C06"
     }
     fn rule(&self) -> String {
-        "expression strings x a pool of accepted documents (PIs, namespaces, DTD-defaulted and #REQUIRED attributes, unparsed entities, CDATA and references, a doubling entity chain): \
+        "expression strings x a pool of accepted documents and generated documents (PIs, namespaces, DTD-defaulted and #REQUIRED attributes, unparsed entities, CDATA and references, a doubling entity chain): \
          (a) token soup over the XPath alphabet incl. variable references, id(), processing-instruction('t'), unknown functions, axis names, odd numbers, unbalanced quotes and brackets; \
          (b) spellings of generated ASTs with 12% deliberately erroneous sub-expressions (variables, unknown functions, wrong arity, wrong argument types); (c) character-level mutants \
          of valid spellings; (d) sized families: nested parentheses / function calls / predicates / filter predicates, operand and union chains, long paths, runs of '-' and '..', \
@@ -153,8 +157,21 @@ impl Property for C06 {
                 }
                 json!({"doc": d, "expr": sp, "_labels": [label]})
             });
-        let _ = xgen::expr_ns;
-        prop_oneof![2 => soup, 5 => ast].boxed()
+        // generated documents (reference tree generator) with expressions over their own vocabulary
+        let gendoc = (proptest::collection::vec(any::<u16>(), 0..160), proptest::collection::vec(any::<u16>(), 0..120), proptest::collection::vec(any::<u8>(), 0..40), 0usize..5, 1u32..6).prop_map(|(t, e, s, ty, depth)| {
+            let mut rt = Rng::new(t);
+            let tree = xgen::gen_tree(&mut rt);
+            let text = vp_xref::to_xml(&tree);
+            let gen = ExprGen { error_pct: 6, coerce_pct: 25, ..ExprGen::default() }.with_vocabulary(&tree);
+            let mut re = Rng::new(e);
+            let a = gen.gen(&mut re, [Ty::NodeSet, Ty::NodeSet, Ty::Num, Ty::Str, Ty::Bool][ty], depth);
+            let mut ch = vp_xref::Choices::new(s);
+            match vp_xref::spell(&a, &mut ch) {
+                Ok(sp) => json!({"doc": 0, "doc_text": text, "expr": sp, "_labels": ["source:generated-document"]}),
+                Err(_) => json!({"_discard": "unspellable"}),
+            }
+        });
+        prop_oneof![2 => soup, 5 => ast, 3 => gendoc].boxed()
     }
     fn fixed_cases(&self, _tier: Tier) -> Vec<Json> {
         let mut v = vec![];
@@ -177,7 +194,8 @@ impl Property for C06 {
             Some(f) => family(f, case["n"].as_u64().unwrap_or(1) as usize),
             None => case["expr"].as_str().unwrap_or("").to_string(),
         };
-        let doc = match xml_dom::XmlDocument::from_raw_with_context(DOCS[di], xml_dom::Context::from_text_expanded(true)) {
+        let doc_text = case["doc_text"].as_str().unwrap_or(DOCS[di]);
+        let doc = match xml_dom::XmlDocument::from_raw_with_context(doc_text, xml_dom::Context::from_text_expanded(true)) {
             Ok((rest, d)) if rest.is_empty() => d,
             _ => return Verdict::Discard("document-rejected".into()),
         };
